@@ -16,8 +16,32 @@ def run(ck):
     else:
         hs += [H('c06_table_n3', cap=7200, meaning='n<=3'), H('c06_table_leap1_n2', cap=7200, required=False, meaning='n<=2 with one leap-second record')]
     kprop.run_harnesses(ck, hs, on_fail=lambda B, h: kprop.replay_search_failure(ck, B, h, int(re.search(r'_n(\d)', h.name).group(1))))
+    f3_known_finding(ck)
     ck.functions += ['datetime::find::find_date_time', 'DateTime::find_n', 'FoundDateTimeListRefMut::{earliest,latest,data}', 'TimeZoneRef::find_local_time_type', 'TimeZoneRef::unix_leap_time_to_unix_time', 'DateTime::from_timespec_and_local']
     ck.explanation = 'Gap detection (two comparisons per transition in leap-count space) and push order are decided for every zone up to the bound and every civil time.'
+
+
+def f3_known_finding(ck):
+    """F3 is excluded from the leap-variant harnesses by assumption (role two-transitions-at-one-utc-instant); the recorded example is
+    replayed natively on every run and reported as KNOWN-FINDING while the real code still misbehaves on it"""
+    ent = [f for f in common.load_known().get('findings', []) if f.get('property') == 'C06' and f.get('id') == 'F3']
+    if not ent:
+        return
+    e = ent[0]
+    nat = common.Native()
+    y, mo, d, h, mi, s = e['local']
+    out = nat.both([f"find {e['zone']} {y} {mo} {d} {h} {mi} {s} 0 8"])[0]
+    for o in out:
+        a = o.split(' || ')[0]
+        for ent_ in [x.strip() for x in a[3:].split(' ; ')]:
+            if ent_.startswith('S '):
+                before, after = ent_[2:].split(' / ')
+                t = int(after.split()[7])
+                after_off = int(after.split()[8])
+                lk = nat.both([f"lookup {e['zone']} {t}"])[0][0]
+                if lk.startswith('ok') and int(lk.split()[1]) != after_off:
+                    ck.known_hits.append(f"F3 role={e['role']}: example zone still reports a gap whose after-clock ({after_off}) is not the clock in force at its instant ({lk.split()[1]})")
+                    return
 
 
 replay = c05.replay
